@@ -20,6 +20,7 @@ type Options struct {
 	Args    []string // e.g. ["worker", "engine"]
 	Workers int
 	Timeout time.Duration // per case
+	Chunk   int           // consecutive cases handed to one worker at a time (default 1)
 	Env     []string
 }
 
@@ -98,11 +99,20 @@ func Run(o Options, cases [][]byte) ([][]byte, error) {
 		o.Timeout = 5 * time.Second
 	}
 	results := make([][]byte, len(cases))
-	idx := make(chan int, len(cases))
-	for i := range cases {
-		idx <- i
+	// consecutive cases go to the same worker in chunks, so that handlers can exploit locality (shared setup)
+	chunk := o.Chunk
+	if chunk < 1 {
+		chunk = 1
 	}
-	close(idx)
+	chunks := make(chan [2]int, len(cases)/chunk+1)
+	for i := 0; i < len(cases); i += chunk {
+		j := i + chunk
+		if j > len(cases) {
+			j = len(cases)
+		}
+		chunks <- [2]int{i, j}
+	}
+	close(chunks)
 	var wg sync.WaitGroup
 	errs := make(chan error, o.Workers)
 	for k := 0; k < o.Workers; k++ {
@@ -115,35 +125,37 @@ func Run(o Options, cases [][]byte) ([][]byte, error) {
 					w.kill()
 				}
 			}()
-			for i := range idx {
-				if w == nil {
-					var err error
-					if w, err = start(o); err != nil {
-						errs <- err
-						return
+			for ch := range chunks {
+				for i := ch[0]; i < ch[1]; i++ {
+					if w == nil {
+						var err error
+						if w, err = start(o); err != nil {
+							errs <- err
+							return
+						}
 					}
-				}
-				line := append(bytes.TrimRight(cases[i], "\n"), '\n')
-				if _, err := w.in.Write(line); err != nil {
-					results[i] = failure("crash", w)
-					w.kill()
-					w = nil
-					continue
-				}
-				select {
-				case res, ok := <-w.lines:
-					if !ok {
-						time.Sleep(50 * time.Millisecond) // let stderr drain
+					line := append(bytes.TrimRight(cases[i], "\n"), '\n')
+					if _, err := w.in.Write(line); err != nil {
 						results[i] = failure("crash", w)
 						w.kill()
 						w = nil
 						continue
 					}
-					results[i] = bytes.TrimRight(res, "\n")
-				case <-time.After(o.Timeout):
-					results[i] = failure("hang", w)
-					w.kill()
-					w = nil
+					select {
+					case res, ok := <-w.lines:
+						if !ok {
+							time.Sleep(50 * time.Millisecond) // let stderr drain
+							results[i] = failure("crash", w)
+							w.kill()
+							w = nil
+							continue
+						}
+						results[i] = bytes.TrimRight(res, "\n")
+					case <-time.After(o.Timeout):
+						results[i] = failure("hang", w)
+						w.kill()
+						w = nil
+					}
 				}
 			}
 		}()
